@@ -315,7 +315,7 @@ Lemma mdn_empty_host h d : strip_dots h = [] -> matchDomainName h d = -1.
 Proof. intros E. unfold matchDomainName. rewrite E. reflexivity. Qed.
 
 (* ------------------------------------------------------------------ *)
-(* Compare() on well-formed values                                     *)
+(* Compare() on normalised values                                      *)
 Lemma sign_is_lt c z : sign_is c z -> (z < 0 <-> c = Lt).
 Proof. destruct c; cbn [sign_is]; intros H; split; intros G; try discriminate; try lia; reflexivity. Qed.
 Lemma sign_is_eq c z : sign_is c z -> (z = 0 <-> c = Eq).
@@ -323,7 +323,25 @@ Proof. destruct c; cbn [sign_is]; intros H; split; intros G; try discriminate; t
 Lemma sign_is_gt c z : sign_is c z -> (z > 0 <-> c = Gt).
 Proof. destruct c; cbn [sign_is]; intros H; split; intros G; try discriminate; try lia; reflexivity. Qed.
 
+(* the value "." (every name ending in a dot) *)
+Definition dotv : bytes := [dot].
+
+(* What parse() hands to Merge() for a non-empty token: a well-formed value or ".". *)
+Definition wfx (v : bytes) : Prop := wf v \/ v = dotv.
+
+Lemma classic_dotv (a b : bytes) : (a = dotv /\ b = dotv) \/ ~ (a = dotv /\ b = dotv).
+Proof.
+  destruct (list_eq_dec N.eq_dec a dotv) as [Ha|Ha]; [|right; tauto].
+  destruct (list_eq_dec N.eq_dec b dotv) as [Hb|Hb]; [left; auto| right; tauto].
+Qed.
+
 Lemma wf_nonempty v : wf v -> v <> [].
+Proof. intros [H _] ->. apply H. reflexivity. Qed.
+
+Lemma wfx_nonempty v : wfx v -> v <> [].
+Proof. intros [H| ->]; [apply wf_nonempty, H| discriminate]. Qed.
+
+Lemma wf_not_dotv v : wf v -> v <> dotv.
 Proof. intros [H _] ->. apply H. reflexivity. Qed.
 
 Lemma wf_strip v : wf v -> strip_dots v = root1 v.
@@ -334,10 +352,23 @@ Proof.
   - reflexivity.
 Qed.
 
-Lemma mdn_wf a b : wf a -> wf b -> sign_is (vpos (lo a) b) (matchDomainName a b).
+Lemma wf_lo_nonempty v : wf v -> lo v <> [].
 Proof.
-  intros Ha Hb. pose proof (mdn_pos a b (wf_nonempty b Hb)) as H.
-  rewrite (wf_strip a Ha) in H. apply H. apply Ha.
+  intros [H _]. unfold lo, rk. destruct (root1 v) as [|c r]; [congruence|].
+  cbn [rev]. destruct (rev r); discriminate.
+Qed.
+
+(* matchDomainName between two stored-style values; the only pair it gets "wrong" is (".", ".") *)
+Lemma mdn_wfx a b : wfx a -> wfx b -> ~ (a = dotv /\ b = dotv) ->
+  sign_is (vpos (lo a) b) (matchDomainName a b).
+Proof.
+  intros [Ha| ->] Hb Hne.
+  - pose proof (mdn_pos a b (wfx_nonempty b Hb)) as H.
+    rewrite (wf_strip a Ha) in H. apply H. apply Ha.
+  - destruct Hb as [Hb| ->]; [|exfalso; apply Hne; auto].
+    rewrite (mdn_empty_host dotv b) by (vm_compute; reflexivity).
+    unfold vpos. change (lo dotv) with (@nil N).
+    pose proof (wf_lo_nonempty b Hb) as Hl. destruct (lo b); [congruence|]. cbn. lia.
 Qed.
 
 (* the interval of a lies entirely before the interval of b *)
@@ -355,12 +386,16 @@ Qed.
 Lemma before_irrefl a : ~ before a a.
 Proof. intros H. apply before_lo in H. exact (llt_irrefl _ H). Qed.
 
-Lemma before_asym a b : before a b -> before b a -> False.
-Proof. intros H1 H2. exact (before_irrefl a (before_trans _ _ _ H1 H2)). Qed.
-
-Theorem dcompare_neg a b : wf a -> wf b -> (dcompare a b < 0 <-> before a b).
+Lemma before_dotv_r x : ~ before x dotv.
 Proof.
-  intros Ha Hb. pose proof (mdn_wf a b Ha Hb) as Sab. pose proof (mdn_wf b a Hb Ha) as Sba.
+  unfold before, lle, hi. change (lo dotv) with (@nil N). intros H. apply H.
+  destruct (lo x); reflexivity.
+Qed.
+
+Theorem dcompare_neg a b : wfx a -> wfx b -> ~ (a = dotv /\ b = dotv) -> (dcompare a b < 0 <-> before a b).
+Proof.
+  intros Ha Hb Hne. pose proof (mdn_wfx a b Ha Hb Hne) as Sab.
+  pose proof (mdn_wfx b a Hb Ha ltac:(tauto)) as Sba.
   unfold dcompare. split.
   - destruct (Z.eqb_spec (matchDomainName b a) 0) as [E|E]; [lia|]. intros H.
     apply (sign_is_lt _ _ Sab) in H. apply vpos_Lt in H.
@@ -373,9 +408,10 @@ Proof.
     apply (sign_is_lt _ _ Sab). apply vpos_Lt. apply before_lo, H.
 Qed.
 
-Theorem dcompare_pos a b : wf a -> wf b -> (dcompare a b > 0 <-> before b a).
+Theorem dcompare_pos a b : wfx a -> wfx b -> ~ (a = dotv /\ b = dotv) -> (dcompare a b > 0 <-> before b a).
 Proof.
-  intros Ha Hb. pose proof (mdn_wf a b Ha Hb) as Sab. pose proof (mdn_wf b a Hb Ha) as Sba.
+  intros Ha Hb Hne. pose proof (mdn_wfx a b Ha Hb Hne) as Sab.
+  pose proof (mdn_wfx b a Hb Ha ltac:(tauto)) as Sba.
   unfold dcompare. split.
   - destruct (Z.eqb_spec (matchDomainName b a) 0) as [E|E]; [lia|]. intros H.
     apply (sign_is_gt _ _ Sab) in H. apply vpos_Gt in H. exact H.
@@ -386,9 +422,11 @@ Qed.
 
 Definition inI (q : list N) (v : bytes) : Prop := vpos q v = Eq.
 
-Theorem dcompare_zero a b : wf a -> wf b -> dcompare a b = 0 -> inI (lo b) a \/ inI (lo a) b.
+Theorem dcompare_zero a b : wfx a -> wfx b -> ~ (a = dotv /\ b = dotv) ->
+  dcompare a b = 0 -> inI (lo b) a \/ inI (lo a) b.
 Proof.
-  intros Ha Hb. pose proof (mdn_wf a b Ha Hb) as Sab. pose proof (mdn_wf b a Hb Ha) as Sba.
+  intros Ha Hb Hne. pose proof (mdn_wfx a b Ha Hb Hne) as Sab.
+  pose proof (mdn_wfx b a Hb Ha ltac:(tauto)) as Sba.
   unfold dcompare, inI. destruct (Z.eqb_spec (matchDomainName b a) 0) as [E|E].
   - intros _. left. apply (sign_is_eq _ _ Sba), E.
   - intros H. right. apply (sign_is_eq _ _ Sab), H.
@@ -396,20 +434,27 @@ Qed.
 
 Lemma dcompare_refl a : wf a -> dcompare a a = 0.
 Proof.
-  intros Ha. pose proof (mdn_wf a a Ha Ha) as S. unfold dcompare.
-  assert (E : matchDomainName a a = 0) by (apply (sign_is_eq _ _ S), vpos_lo).
+  intros Ha. pose proof (mdn_wfx a a (or_introl Ha) (or_introl Ha)) as S. unfold dcompare.
+  assert (E : matchDomainName a a = 0).
+  { apply (sign_is_eq _ _ (S ltac:(intros [H _]; exact (wf_not_dotv a Ha H)))), vpos_lo. }
   rewrite E. reflexivity.
 Qed.
 
+(* the quirk: "." is not its own duplicate (its root is empty), so it may be stored several times *)
+Lemma dcompare_dotv_dotv : dcompare dotv dotv = -1.
+Proof. vm_compute. reflexivity. Qed.
+
 (* ------------------------------------------------------------------ *)
-(* sequences sorted by "entirely before", and sign monotonicity        *)
+(* sequences sorted by "entirely before" (copies of "." may repeat), and sign monotonicity *)
+Definition ord (x y : bytes) : Prop := before x y \/ (x = dotv /\ y = dotv).
+
 Fixpoint sd (l : list bytes) : Prop :=
   match l with
   | [] => True
-  | x :: r => Forall (before x) r /\ sd r
+  | x :: r => Forall (ord x) r /\ sd r
   end.
 
-Lemma sd_app a b : sd (a ++ b) <-> sd a /\ sd b /\ (forall x y, In x a -> In y b -> before x y).
+Lemma sd_app a b : sd (a ++ b) <-> sd a /\ sd b /\ (forall x y, In x a -> In y b -> ord x y).
 Proof.
   induction a as [|x a IH]; cbn [app sd].
   - split; [intros H; repeat split; [exact H| intros x y []] | intros (_ & H & _); exact H].
@@ -422,36 +467,44 @@ Proof.
 Qed.
 
 Lemma mono_of_sd (c : bytes -> Z) l :
-  (forall x y, wf x -> wf y -> before x y -> Z.sgn (c y) <= Z.sgn (c x)) ->
-  Forall wf l -> sd l -> mono c l.
+  (forall x y, wfx x -> wfx y -> before x y -> Z.sgn (c y) <= Z.sgn (c x)) ->
+  Forall wfx l -> sd l -> mono c l.
 Proof.
   intros Hc. induction l as [|x l IH]; intros W S; cbn [mono]; [exact I|].
   inversion W as [|? ? Wx Wl]; subst. destruct S as [F S]. split; [|apply IH; assumption].
-  rewrite Forall_forall in *. intros y Hy. apply Hc; [exact Wx| apply Wl, Hy| apply F, Hy].
+  rewrite Forall_forall in *. intros y Hy.
+  destruct (F y Hy) as [B|[-> ->]]; [apply Hc; [exact Wx| apply Wl, Hy| exact B]| lia].
 Qed.
 
-Theorem mono_dcompare a l : wf a -> Forall wf l -> sd l -> mono (dcompare a) l.
+Theorem mono_dcompare a l : wfx a -> Forall wfx l -> sd l -> mono (dcompare a) l.
 Proof.
   intros Ha. apply mono_of_sd. intros x y Wx Wy B.
-  destruct (Z.lt_trichotomy (dcompare a x) 0) as [H|[H|H]].
-  - apply (dcompare_neg a x Ha Wx) in H.
-    assert (H2 : dcompare a y < 0) by (apply (dcompare_neg a y Ha Wy); eapply before_trans; eassumption).
+  assert (Hy : y <> dotv) by (intros ->; exact (before_dotv_r x B)).
+  assert (Nay : ~ (a = dotv /\ y = dotv)) by tauto.
+  destruct (classic_dotv a x) as [[-> ->]|Nax].
+  - (* a = x = ".": compare(".", ".") = -1, and y lies after "." *)
+    rewrite dcompare_dotv_dotv.
+    assert (H2 : dcompare dotv y < 0) by (apply (dcompare_neg dotv y Ha Wy Nay); exact B).
     lia.
-  - destruct (Z.lt_trichotomy (dcompare a y) 0) as [G|[G|G]]; try lia.
-    assert (G' : dcompare a y > 0) by lia. apply (dcompare_pos a y Ha Wy) in G'.
-    assert (H2 : dcompare a x > 0) by (apply (dcompare_pos a x Ha Wx); eapply before_trans; eassumption).
-    lia.
-  - lia.
+  - destruct (Z.lt_trichotomy (dcompare a x) 0) as [H|[H|H]].
+    + apply (dcompare_neg a x Ha Wx Nax) in H.
+      assert (H2 : dcompare a y < 0) by (apply (dcompare_neg a y Ha Wy Nay); eapply before_trans; eassumption).
+      lia.
+    + destruct (Z.lt_trichotomy (dcompare a y) 0) as [G|[G|G]]; try lia.
+      assert (G' : dcompare a y > 0) by lia. apply (dcompare_pos a y Ha Wy Nay) in G'.
+      assert (H2 : dcompare a x > 0) by (apply (dcompare_pos a x Ha Wx Nax); eapply before_trans; eassumption).
+      lia.
+    + lia.
 Qed.
 
-Theorem mono_host h l : Forall wf l -> sd l -> mono (host_cmp h) l.
+Theorem mono_host h l : Forall wfx l -> sd l -> mono (host_cmp h) l.
 Proof.
   apply mono_of_sd. intros x y Wx Wy B. unfold host_cmp.
   destruct (strip_dots h) as [|c h'] eqn:Eh.
   - rewrite !mdn_empty_host by exact Eh. lia.
   - assert (Hh : strip_dots h <> []) by (rewrite Eh; discriminate).
-    pose proof (mdn_pos h x (wf_nonempty x Wx) Hh) as Sx.
-    pose proof (mdn_pos h y (wf_nonempty y Wy) Hh) as Sy.
+    pose proof (mdn_pos h x (wfx_nonempty x Wx) Hh) as Sx.
+    pose proof (mdn_pos h y (wfx_nonempty y Wy) Hh) as Sy.
     rewrite Eh in Sx, Sy. set (q := rk (c :: h')) in *.
     destruct (vpos q x) eqn:Px; cbn [sign_is] in Sx.
     + (* q inside x: it cannot be at or after the end of y *)
@@ -502,10 +555,11 @@ Proof.
   cbn [lenN tl]. now rewrite lenN_length.
 Qed.
 
-Theorem subset_sound a b : wf a -> wf b -> (inI (lo b) a \/ inI (lo a) b) ->
+(* no condition on the two values *)
+Theorem subset_sound a b : (inI (lo b) a \/ inI (lo a) b) ->
   is_subset a b = true -> forall q, inI q a -> inI q b.
 Proof.
-  intros Wa Wb Ov. unfold is_subset.
+  intros Ov. unfold is_subset.
   destruct (first_is_dot a) eqn:Fa; destruct (first_is_dot b) eqn:Fb; cbn [andb negb].
   - intros L q Hq. apply N.leb_le in L.
     destruct Ov as [Hb|Ha].
@@ -529,9 +583,17 @@ Proof.
   intros L. apply N.leb_gt in L. apply N.leb_le. lia.
 Qed.
 
+(* "." is never the one that gets removed: every non-empty value is "inside" it for IsSubset() *)
+Lemma is_subset_dotv v : v <> [] -> is_subset v dotv = true.
+Proof.
+  intros Hv. unfold is_subset. change (first_is_dot dotv) with true.
+  destruct (first_is_dot v); cbn [andb negb]; [|reflexivity].
+  destruct v as [|c v]; [congruence|]. cbn [lenN]. apply N.leb_le. change (lenN dotv) with 1%N. lia.
+Qed.
+
 (* ------------------------------------------------------------------ *)
 (* Merge(): the stored sequence stays sorted and disjoint, its union grows by the new value *)
-Definition inv (t : tree bytes) : Prop := Forall wf (inorder t) /\ sd (inorder t).
+Definition inv (t : tree bytes) : Prop := Forall wfx (inorder t) /\ sd (inorder t).
 Definition covered (q : list N) (l : list bytes) : Prop := exists x, In x l /\ inI q x.
 
 Lemma covered_app q a b : covered q (a ++ b) <-> covered q a \/ covered q b.
@@ -551,7 +613,7 @@ Qed.
 Lemma inv_leaf : inv Leaf.
 Proof. split; [constructor| exact I]. Qed.
 
-Theorem merge_spec : forall fuel t n v, inv t -> wf v -> (tree_size t < fuel)%nat ->
+Theorem merge_spec : forall fuel t n v, inv t -> wfx v -> (tree_size t < fuel)%nat ->
   exists t' n', merge fuel t n v = MOk t' n' /\ inv t' /\
     (forall q, covered q (inorder t') <-> covered q (inorder t) \/ inI q v).
 Proof.
@@ -560,30 +622,39 @@ Proof.
   pose proof (mono_dcompare v (inorder t) Wv W S) as M.
   destruct (sp_insert (dcompare v) v t) as [t1 [old|]] eqn:Ei.
   - destruct (sp_insert_found _ _ _ _ _ Ei) as (Hi & Hz & Hin).
-    assert (Wold : wf old) by (rewrite Forall_forall in W; apply W, Hin).
-    pose proof (dcompare_zero v old Wv Wold Hz) as Ov.
+    assert (Wold : wfx old) by (rewrite Forall_forall in W; apply W, Hin).
+    assert (Nvo : ~ (v = dotv /\ old = dotv)).
+    { intros [-> ->]. rewrite dcompare_dotv_dotv in Hz. discriminate. }
+    pose proof (dcompare_zero v old Wv Wold Nvo Hz) as Ov.
     destruct (is_subset v old) eqn:S1.
     + exists t1, n. split; [reflexivity|]. split; [unfold inv; rewrite Hi; auto|].
       intros q. rewrite Hi. split; [auto|]. intros [H|H]; [exact H|].
-      exists old. split; [exact Hin|]. exact (subset_sound v old Wv Wold Ov S1 q H).
+      exists old. split; [exact Hin|]. exact (subset_sound v old Ov S1 q H).
     + pose proof (subset_total v old S1) as S2. rewrite S2.
+      assert (Wo : wf old).
+      { destruct Wold as [H| ->]; [exact H|]. rewrite (is_subset_dotv v (wfx_nonempty v Wv)) in S1. discriminate. }
+      pose proof (wf_not_dotv old Wo) as Nod.
       destruct (in_split old (inorder t1)) as (A & B & HAB); [rewrite Hi; exact Hin|].
       rewrite Hi in HAB. rewrite HAB in W, S.
       apply Forall_app in W. destruct W as [WA WB']. inversion WB' as [|? ? _ WB]; subst.
       apply sd_app in S. destruct S as (SA & SB' & Hc). cbn [sd] in SB'. destruct SB' as [FB SB].
+      assert (BA : forall y, In y A -> before y old).
+      { intros y Hy. destruct (Hc y old Hy (or_introl eq_refl)) as [H|[_ H]]; [exact H| contradiction]. }
+      assert (BB : forall y, In y B -> before old y).
+      { intros y Hy. rewrite Forall_forall in FB. destruct (FB y Hy) as [H|[H _]]; [exact H| contradiction]. }
       assert (PA : Forall (fun y => dcompare old y > 0) A).
-      { rewrite Forall_forall in *. intros y Hy. apply (dcompare_pos old y Wold (WA y Hy)).
-        apply Hc; [exact Hy| left; reflexivity]. }
+      { rewrite Forall_forall in *. intros y Hy.
+        apply (dcompare_pos old y (or_introl Wo) (WA y Hy) ltac:(tauto)). apply BA, Hy. }
       assert (PB : Forall (fun y => dcompare old y < 0) B).
-      { rewrite Forall_forall in *. intros y Hy. apply (dcompare_neg old y Wold (WB y Hy)). apply FB, Hy. }
-      destruct (sp_remove_spec (dcompare old) t1 A old B ltac:(rewrite Hi; exact HAB) (dcompare_refl old Wold) PA PB)
+      { rewrite Forall_forall in *. intros y Hy.
+        apply (dcompare_neg old y (or_introl Wo) (WB y Hy) ltac:(tauto)). apply BB, Hy. }
+      destruct (sp_remove_spec (dcompare old) t1 A old B ltac:(rewrite Hi; exact HAB) (dcompare_refl old Wo) PA PB)
         as (t2 & Er & Hi2).
       rewrite Er.
       assert (Inv2 : inv t2).
       { unfold inv. rewrite Hi2. split; [apply Forall_app; auto|].
         apply sd_app. repeat split; try assumption.
-        intros x y Hx Hy. eapply before_trans; [apply Hc; [exact Hx| left; reflexivity]|].
-        rewrite Forall_forall in FB. apply FB, Hy. }
+        intros x y Hx Hy. left. eapply before_trans; [apply BA, Hx| apply BB, Hy]. }
       assert (Sz : (tree_size t2 < f)%nat).
       { rewrite <- (inorder_length t2), Hi2. rewrite <- (inorder_length t), HAB in Hf.
         rewrite app_length in *. cbn [length] in Hf. lia. }
@@ -591,18 +662,21 @@ Proof.
       exists t', n'. split; [exact Em|]. split; [exact Inv'|].
       intros q. rewrite Hcov, Hi2, HAB. rewrite !covered_app, covered_cons.
       assert (Ov' : inI (lo v) old \/ inI (lo old) v) by tauto.
-      pose proof (subset_sound old v Wold Wv Ov' S2 q) as Hsub. tauto.
+      pose proof (subset_sound old v Ov' S2 q) as Hsub. tauto.
   - destruct (sp_insert_new _ v t t1 M Ei) as (A & B & HAB & Hi & PA & PB).
     rewrite HAB in W, S. apply Forall_app in W. destruct W as [WA WB].
     apply sd_app in S. destruct S as (SA & SB & Hc).
     exists t1, (n + 1)%Z. split; [reflexivity|]. split.
     + unfold inv. rewrite Hi. split; [apply Forall_app; split; [exact WA| constructor; assumption]|].
+      rewrite Forall_forall in *.
       apply sd_app. split; [exact SA|]. split.
-      * cbn [sd]. split; [|exact SB]. rewrite Forall_forall in *. intros y Hy.
-        apply (dcompare_neg v y Wv (WB y Hy)). apply PB, Hy.
-      * rewrite Forall_forall in *. intros x y Hx [<-|Hy].
-        -- apply (dcompare_pos v x Wv (WA x Hx)). apply PA, Hx.
-        -- apply Hc; assumption.
+      * cbn [sd]. split; [|exact SB]. rewrite Forall_forall. intros y Hy.
+        destruct (classic_dotv v y) as [[-> ->]|Nvy]; [right; auto|].
+        left. apply (dcompare_neg v y Wv (WB y Hy) Nvy). apply PB, Hy.
+      * intros x y Hx [<-|Hy]; [|apply Hc; assumption].
+        destruct (classic_dotv v x) as [[-> ->]|Nvx].
+        -- specialize (PA dotv Hx). cbn beta in PA. rewrite dcompare_dotv_dotv in PA. lia.
+        -- left. apply (dcompare_pos v x Wv (WA x Hx) Nvx). apply PA, Hx.
     + intros q. rewrite Hi, HAB. rewrite !covered_app, covered_cons. tauto.
 Qed.
 
@@ -635,26 +709,65 @@ Proof. unfold ext. now rewrite first_is_dot_lower. Qed.
 Lemma inI_lower q v : inI q (lower_str v) <-> inI q v.
 Proof. unfold inI, vpos. rewrite lo_lower, ext_lower. reflexivity. Qed.
 
-Lemma wf_lower v : wf v -> wf (lower_str v).
+(* skipping redundant leading dots: the result of a non-empty token is well-formed or "." *)
+Lemma collapse_cons2 c c2 t :
+  collapse_dots (c :: c2 :: t) = if ((c =? dot) && (c2 =? dot))%N then collapse_dots (c2 :: t) else c :: c2 :: t.
+Proof. reflexivity. Qed.
+
+Lemma collapse_lower t : collapse_dots (lower_str t) = lower_str (collapse_dots t).
 Proof.
-  intros [Hne Hd]. unfold wf. rewrite root1_lower, first_is_dot_lower. split; [|exact Hd].
-  destruct (root1 v); [congruence| discriminate].
+  assert (E : forall x, (lower x =? dot)%N = (x =? dot)%N).
+  { intros x. destruct (N.eqb_spec x dot) as [->|H]; [rewrite lower_dot_self; apply N.eqb_refl|].
+    apply N.eqb_neq. intros G. apply (proj1 (lower_dot x)) in G. contradiction. }
+  induction t as [|c t IH]; [reflexivity|].
+  destruct t as [|c2 t]; [reflexivity|].
+  change (lower_str (c :: c2 :: t)) with (lower c :: lower c2 :: lower_str t).
+  change (lower_str (c2 :: t)) with (lower c2 :: lower_str t) in IH.
+  rewrite !collapse_cons2, !E.
+  destruct ((c =? dot)%N && (c2 =? dot)%N); [exact IH| reflexivity].
 Qed.
 
-Theorem acl_parse_from_spec : forall toks t n, inv t -> Forall wf toks ->
+Lemma collapse_wfx t : t <> [] -> wfx (collapse_dots t).
+Proof.
+  induction t as [|c t IH]; [congruence|]. intros _.
+  destruct t as [|c2 t].
+  - cbn [collapse_dots]. destruct (N.eqb_spec c dot) as [->|E]; [right; reflexivity|].
+    left. unfold wf, root1. cbn [first_is_dot]. destruct (N.eqb_spec c dot); [contradiction|].
+    split; [discriminate|]. cbn [first_is_dot]. apply N.eqb_neq, E.
+  - rewrite collapse_cons2.
+    destruct (N.eqb_spec c dot) as [->|E]; cbn [andb].
+    + destruct (N.eqb_spec c2 dot) as [->|E2].
+      * apply IH. discriminate.
+      * left. unfold wf, root1. cbn [first_is_dot]. rewrite N.eqb_refl. cbn [tl].
+        split; [discriminate|]. cbn [first_is_dot]. apply N.eqb_neq, E2.
+    + left. unfold wf, root1. cbn [first_is_dot]. destruct (N.eqb_spec c dot); [contradiction|].
+      split; [discriminate|]. cbn [first_is_dot]. apply N.eqb_neq, E.
+Qed.
+
+(* what a configured token stands for: its value with redundant leading dots skipped *)
+Definition norm (tok : bytes) : bytes := collapse_dots tok.
+
+Lemma inI_norm_lower q tok : inI q (collapse_dots (lower_str tok)) <-> inI q (norm tok).
+Proof. unfold norm. rewrite collapse_lower. apply inI_lower. Qed.
+
+Definition nonempty (t : bytes) : Prop := t <> [].
+
+Theorem acl_parse_from_spec : forall toks t n, inv t -> Forall nonempty toks ->
   exists t' n', acl_parse_from t n toks = MOk t' n' /\ inv t' /\
-    (forall q, covered q (inorder t') <-> covered q (inorder t) \/ covered q toks).
+    (forall q, covered q (inorder t') <-> covered q (inorder t) \/ covered q (map norm toks)).
 Proof.
   induction toks as [|tok toks IH]; intros t n Hinv W.
   - exists t, n. split; [reflexivity|]. split; [exact Hinv|].
     intros q. split; [auto|]. intros [H|(x & [] & _)]. exact H.
   - inversion W as [|? ? Wt Wr]; subst. cbn [acl_parse_from].
-    destruct (merge_spec (merge_fuel t) t n (lower_str tok) Hinv (wf_lower tok Wt) ltac:(unfold merge_fuel; lia))
+    assert (Wv : wfx (collapse_dots (lower_str tok))).
+    { apply collapse_wfx. destruct tok; [exfalso; apply Wt; reflexivity| discriminate]. }
+    destruct (merge_spec (merge_fuel t) t n _ Hinv Wv ltac:(unfold merge_fuel; lia))
       as (t1 & n1 & Em & Inv1 & Hc1).
     rewrite Em.
     destruct (IH t1 n1 Inv1 Wr) as (t' & n' & Ep & Inv' & Hc').
     exists t', n'. split; [exact Ep|]. split; [exact Inv'|].
-    intros q. rewrite Hc', Hc1, covered_cons, inI_lower. tauto.
+    intros q. rewrite Hc', Hc1. cbn [map]. rewrite covered_cons, inI_norm_lower. tauto.
 Qed.
 
 (* ------------------------------------------------------------------ *)
@@ -678,12 +791,12 @@ Proof.
   - assert (Hh : strip_dots host <> []) by (rewrite Eh; discriminate).
     split.
     + intros (x & Hin & Hx). split; [discriminate|]. exists x. split; [exact Hin|].
-      assert (Wx : wf x) by (rewrite Forall_forall in W; apply W, Hin).
-      pose proof (mdn_pos host x (wf_nonempty x Wx) Hh) as Sx. rewrite Eh in Sx.
+      assert (Wx : wfx x) by (rewrite Forall_forall in W; apply W, Hin).
+      pose proof (mdn_pos host x (wfx_nonempty x Wx) Hh) as Sx. rewrite Eh in Sx.
       apply (sign_is_eq _ _ Sx), Hx.
     + intros (_ & x & Hin & Hx). exists x. split; [exact Hin|].
-      assert (Wx : wf x) by (rewrite Forall_forall in W; apply W, Hin).
-      pose proof (mdn_pos host x (wf_nonempty x Wx) Hh) as Sx. rewrite Eh in Sx.
+      assert (Wx : wfx x) by (rewrite Forall_forall in W; apply W, Hin).
+      pose proof (mdn_pos host x (wfx_nonempty x Wx) Hh) as Sx. rewrite Eh in Sx.
       apply (sign_is_eq _ _ Sx), Hx.
 Qed.
 
@@ -759,23 +872,27 @@ Proof.
   - rewrite (inI_plain _ _ Fv). unfold lo, root1. rewrite Fv. apply rk_eq_iff.
 Qed.
 
-Lemma covered_dom_match host toks : Forall wf toks ->
-  (strip_dots host <> [] /\ covered (rk (strip_dots host)) toks) <->
-  (exists v, In v toks /\ dom_match v host).
+Lemma collapse_nonempty t : t <> [] -> collapse_dots t <> [].
+Proof. intros H. apply wfx_nonempty, collapse_wfx, H. Qed.
+
+Lemma covered_dom_match host toks : Forall nonempty toks ->
+  (strip_dots host <> [] /\ covered (rk (strip_dots host)) (map norm toks)) <->
+  (exists tok, In tok toks /\ dom_match (norm tok) host).
 Proof.
   intros W. unfold covered, dom_match. rewrite Forall_forall in W. split.
-  - intros (Hh & v & Hin & Hq). exists v. split; [exact Hin|]. split; [exact Hh|].
-    apply (inI_dom_match v _ (wf_nonempty v (W v Hin))), Hq.
-  - intros (v & Hin & Hh & Hm). split; [exact Hh|]. exists v. split; [exact Hin|].
-    apply (inI_dom_match v _ (wf_nonempty v (W v Hin))), Hm.
+  - intros (Hh & v & Hin & Hq). apply in_map_iff in Hin. destruct Hin as (tok & <- & Hin).
+    exists tok. split; [exact Hin|]. split; [exact Hh|].
+    apply (inI_dom_match (norm tok) _ (collapse_nonempty tok (W tok Hin))), Hq.
+  - intros (tok & Hin & Hh & Hm). split; [exact Hh|]. exists (norm tok). split; [apply in_map, Hin|].
+    apply (inI_dom_match (norm tok) _ (collapse_nonempty tok (W tok Hin))), Hm.
 Qed.
 
 (* ------------------------------------------------------------------ *)
 (* end to end                                                          *)
 Definition acl_holds (toks : list bytes) (t : tree bytes) : Prop :=
-  inv t /\ forall q, covered q (inorder t) <-> covered q toks.
+  inv t /\ forall q, covered q (inorder t) <-> covered q (map norm toks).
 
-Theorem acl_parse_ok toks : Forall wf toks ->
+Theorem acl_parse_ok toks : Forall nonempty toks ->
   exists t n, acl_parse toks = MOk t n /\ acl_holds toks t.
 Proof.
   intros W. destruct (acl_parse_from_spec toks Leaf 0%Z inv_leaf W) as (t & n & E & Hinv & Hc).
@@ -783,9 +900,9 @@ Proof.
   intros q. rewrite Hc. split; [|auto]. intros [(x & [] & _)|H]. exact H.
 Qed.
 
-Theorem acl_match_correct toks t host : Forall wf toks -> acl_holds toks t ->
+Theorem acl_match_correct toks t host : Forall nonempty toks -> acl_holds toks t ->
   acl_holds toks (fst (acl_match t host)) /\
-  (snd (acl_match t host) = true <-> exists v, In v toks /\ dom_match v host).
+  (snd (acl_match t host) = true <-> exists tok, In tok toks /\ dom_match (norm tok) host).
 Proof.
   intros W [Hinv Hc]. destruct (acl_match_spec t host Hinv) as [Hi Hm]. split.
   - destruct Hinv as [W' S]. split; [unfold inv; rewrite Hi; auto|]. intros q. rewrite Hi. apply Hc.
@@ -794,8 +911,8 @@ Proof.
 Qed.
 
 (* every answer of a sequence of lookups (each of which re-shapes the tree) is right *)
-Theorem acl_match_seq_correct toks : Forall wf toks -> forall hosts t, acl_holds toks t ->
-  Forall2 (fun host b => b = true <-> exists v, In v toks /\ dom_match v host)
+Theorem acl_match_seq_correct toks : Forall nonempty toks -> forall hosts t, acl_holds toks t ->
+  Forall2 (fun host b => b = true <-> exists tok, In tok toks /\ dom_match (norm tok) host)
           hosts (snd (acl_match_seq t hosts)).
 Proof.
   intros W. induction hosts as [|h hosts IH]; intros t Ht; cbn [acl_match_seq]; [constructor|].
@@ -805,9 +922,9 @@ Proof.
   constructor; assumption.
 Qed.
 
-Theorem acl_correct toks : Forall wf toks ->
+Theorem acl_correct toks : Forall nonempty toks ->
   exists t n, acl_parse toks = MOk t n /\
-    forall host, snd (acl_match t host) = true <-> exists v, In v toks /\ dom_match v host.
+    forall host, snd (acl_match t host) = true <-> exists tok, In tok toks /\ dom_match (norm tok) host.
 Proof.
   intros W. destruct (acl_parse_ok toks W) as (t & n & E & H). exists t, n. split; [exact E|].
   intros host. apply (acl_match_correct toks t host W H).
@@ -817,38 +934,26 @@ Qed.
 Lemma mdn_leading_dot host d : matchDomainName (dot :: host) d = matchDomainName host d.
 Proof. unfold matchDomainName. cbn [strip_dots]. rewrite N.eqb_refl. reflexivity. Qed.
 
-(* ------------------------------------------------------------------ *)
-(* without well-formedness the statement is false for the model         *)
+(* skipping redundant dots only touches values that start with two dots *)
+Lemma norm_id tok : (forall r, tok <> dot :: dot :: r) -> norm tok = tok.
+Proof.
+  intros H. unfold norm. destruct tok as [|c [|c2 t]]; try reflexivity. rewrite collapse_cons2.
+  destruct (N.eqb_spec c dot) as [->|E]; [|reflexivity].
+  destruct (N.eqb_spec c2 dot) as [->|E2]; [|reflexivity].
+  exfalso. exact (H t eq_refl).
+Qed.
+
 Definition s_a : bytes := [97%N].                    (* the name a *)
 Definition s_dda : bytes := [46%N; 46%N; 97%N].      (* the value ..a *)
 Definition s_da : bytes := [46%N; 97%N].             (* the value .a *)
-
-Theorem acl_any_values_refuted :
-  exists toks host t n,
-    Forall (fun v => v <> []) toks /\
-    acl_parse toks = MOk t n /\
-    (exists v, In v toks /\ dom_match v host) /\
-    snd (acl_match t host) = false.
-Proof.
-  exists [s_dda; s_a], s_a, (Node Leaf s_dda Leaf), 1.
-  split; [repeat constructor; discriminate|].
-  split; [vm_compute; reflexivity|].
-  split; [|vm_compute; reflexivity].
-  exists s_a. split; [right; left; reflexivity|].
-  unfold dom_match. cbn. split; [discriminate| reflexivity].
-Qed.
-
-(* ... and parse() itself can free a value that is still stored *)
-Theorem acl_parse_dangling_refuted : acl_parse [s_dda; s_da] = MDangling.
-Proof. vm_compute. reflexivity. Qed.
 
 (* ------------------------------------------------------------------ *)
 (* statements packaged for Properties_C41.v                            *)
 Lemma lower_facts c : lower (lower c) = lower c /\ (lower c = dot <-> c = dot).
 Proof. split; [apply lower_idem| apply lower_dot]. Qed.
 
-(* one value, any non-empty value (also the malformed ones): the comparison used by
-   match() answers 0 exactly for the names the value stands for *)
+(* one value, any non-empty value: the comparison used by match() answers 0 exactly for
+   the names the value stands for *)
 Theorem mdn_zero_iff host v : v <> [] -> (matchDomainName host v = 0 <-> dom_match v host).
 Proof.
   intros Hv. unfold dom_match. cbn zeta.
@@ -860,7 +965,7 @@ Proof.
     split; [intros H; split; [discriminate| exact H]| intros [_ H]; exact H].
 Qed.
 
-Theorem dcompare_sign a b : wf a -> wf b ->
+Theorem dcompare_sign a b : wfx a -> wfx b -> ~ (a = dotv /\ b = dotv) ->
   (dcompare a b < 0 <-> before a b) /\ (dcompare a b > 0 <-> before b a) /\
   (dcompare a b = 0 -> inI (lo b) a \/ inI (lo a) b).
-Proof. intros Ha Hb. split; [apply dcompare_neg| split; [apply dcompare_pos| apply dcompare_zero]]; assumption. Qed.
+Proof. intros Ha Hb Hn. split; [apply dcompare_neg| split; [apply dcompare_pos| apply dcompare_zero]]; assumption. Qed.
